@@ -147,6 +147,61 @@ Proof.
 Qed.
 Print Assumptions C14_generator_total.
 
+(* ... and no identifier is declared twice: [declared out] lists every top-level name of the generated
+   package (enum types and constants, interfaces, structs, Params structs); [names_ok] is the decidable
+   distinctness of the mangled names of the schema. *)
+Theorem C14_declared_once :
+  forall (goify : str -> bool -> str) (sort_defs : list def -> list def) (sort_strs : list str -> list str),
+  (forall l, Permutation (sort_defs l) l) ->
+  (forall l, Permutation (sort_strs l) l) ->
+  forall (s : schema) (o : list group) (out : output),
+  Permutation o (groups (s_objects s)) -> names_ok goify s = true ->
+  emit goify sort_defs sort_strs o (s_methods s) = Ok out ->
+  NoDup (declared out).
+Proof.
+  intros goify sd ss H1 H2 [objs ms] o out Hp Hn He.
+  exact (declared_nodup goify sd ss H1 H2 objs ms o out Hp Hn He).
+Qed.
+Print Assumptions C14_declared_once.
+
+Example C14_declared_once_example :
+  let s := mkschema
+    [mkdef (lit "null") 1450380236 [] (lit "Null") false;
+     mkdef (lit "chatPhotoEmpty") 935395612 [] (lit "ChatPhoto") false;
+     mkdef (lit "chatPhoto") 3523977020 [mkparam (lit "dc_id") (lit "int") false false 0] (lit "ChatPhoto") false]
+    [mkdef (lit "block") 2 [] (lit "Bool") false] in
+  let goify := fun (n : str) (_ : bool) => match n with c :: t => (if andb (97 <=? c) (c <=? 122) then c - 32 else c) :: t | [] => [] end in
+  names_ok goify s = true /\ is_ok (emit goify isort_defs isort_strs (groups (s_objects s)) (s_methods s)) = true.
+Proof. split; vm_compute; reflexivity. Qed.
+
+(* the body of a generated method: the j-th positional argument is the j-th parameter of the function other
+   than the flags word, and the literal &<Name>Params{...} handed to MakeRequest puts it into the field
+   generated for that very parameter (field j, by C14_layout).  [gen_call] lists, per field, the position of
+   the argument whose identifier is written there; identifiers are goify(name,false) up to an injective
+   suffix rule, hence the distinctness hypothesis (without it the Go code does not compile). *)
+Theorem C14_argument_map :
+  forall (goify : str -> bool -> str) (ps : list param) (j : nat) (p : param),
+  one_flags_word ps ->
+  NoDup (map (fun q => goify (p_name q) false) (filter not_flags ps)) ->
+  nth_error (filter not_flags ps) j = Some p ->
+  nth_error (arg_params ps) j = Some p
+  /\ nth_error (gen_call goify ps) j = Some (goify (p_name p) true, Some j).
+Proof. exact argument_map. Qed.
+Print Assumptions C14_argument_map.
+
+Example C14_argument_map_example :
+  let ps := [mkparam (lit "peer") (lit "InputPeer") false false 0;
+             mkparam (lit "flags") (lit "bitflags") false false 0;
+             mkparam (lit "a") (lit "int") false true 3;
+             mkparam (lit "b") (lit "int") false false 0] in
+  let goify := fun (n : str) (_ : bool) => n in
+  one_flags_word ps /\ NoDup (map (fun q => goify (p_name q) false) (filter not_flags ps))
+  /\ gen_call goify ps = [(lit "peer", Some 0%nat); (lit "a", Some 1%nat); (lit "b", Some 2%nat)].
+Proof.
+  split; [vm_compute; repeat constructor|]. split; [|vm_compute; reflexivity].
+  vm_compute. repeat constructor; cbn; intuition discriminate.
+Qed.
+
 (* the hypothesis "emit ... = Ok out" is satisfiable (a schema with an enum, a stand-alone struct with
    a flags word that is not the first parameter, an interface with a name clash, and two functions) *)
 Example C14_layout_example :
